@@ -443,6 +443,16 @@ func main() {
 					"depth": res.Depth, "exhaustive": res.Exhaustive, "violating_transitions": res.Violations})
 				fmt.Printf("  %-28s states=%d transitions=%d depth=%d violations=%d exhaustive=%v\n", c.Name, res.States, res.Transitions, res.Depth, res.Violations, res.Exhaustive)
 			}
+			if hooks {
+				// every history to a small depth without merging (hidden state no key shows)
+				d := mc.Pick(r, 5, 6)
+				for _, c := range []*cfg{unit(2, 3, []int{0, 1}, false), {Name: "size=value L=3 K=2", Limit: 3, Keys: 2, Values: []int{0, 1, 2, 4}, BySize: true}} {
+					c.Name += fmt.Sprintf(" unmerged to depth %d", d)
+					res := makeBFS(c, &cnt, false, d).Run(r)
+					summary = append(summary, map[string]any{"config": c.Name, "histories": res.States, "transitions": res.Transitions, "exhaustive": res.Exhaustive, "violating_transitions": res.Violations})
+					fmt.Printf("  %-28s histories=%d violations=%d\n", c.Name, res.States, res.Violations)
+				}
+			}
 			r.Extra("configurations", summary)
 			r.Count("evictions", cnt.evictions)
 			r.Count("puts_evicting_more_than_one", cnt.multiEvict)
